@@ -32,6 +32,7 @@ type Prog struct {
 	globalWrites  map[string]bool  // globals stored to outside init
 	lemmas        []*Contract
 	findings      FindingsFile
+	ifaceContracts map[string]*Contract
 }
 
 func loadProg(repo string) (*Prog, error) {
@@ -98,6 +99,13 @@ func (P *Prog) loadContracts() error {
 		for _, c := range cf.Contracts {
 			if c.Lemma {
 				P.lemmas = append(P.lemmas, c)
+				continue
+			}
+			if strings.HasPrefix(c.FuncName, "iface ") {
+				if P.ifaceContracts == nil {
+					P.ifaceContracts = map[string]*Contract{}
+				}
+				P.ifaceContracts[strings.TrimSpace(strings.TrimPrefix(c.FuncName, "iface "))] = c
 				continue
 			}
 			fn := P.byName[path+"::"+c.FuncName]
